@@ -1,0 +1,28 @@
+//go:build verif
+
+// Contracts of package nut04 for the govc verifier (/verif). Comment-only file,
+// compiled only with the build tag `verif`.
+package nut04
+
+// NUT-04 quote states on the wire are the strings UNPAID / PAID / ISSUED / PENDING.
+//@ macro statestr(st) = (st == Unpaid ? "UNPAID" : (st == Paid ? "PAID" : (st == Issued ? "ISSUED" : (st == Pending ? "PENDING" : "unknown"))))
+
+//@ func (State).String
+//@   tags C20
+//@   safety C06 C20
+//@   ensures @wire [C20] result == statestr(state)
+
+// the inverse on the four states; anything else is Unknown
+//@ func StringToState
+//@   tags C20
+//@   safety C06 C20
+//@   ensures @wire [C20] (state == "UNPAID" ==> result == Unpaid) && (state == "PAID" ==> result == Paid) && (state == "ISSUED" ==> result == Issued) && (state == "PENDING" ==> result == Pending)
+//@   ensures @inverse [C20] result != Unknown ==> statestr(result) == state
+//@   ensures @unknown [C20] state != "UNPAID" && state != "PAID" && state != "ISSUED" && state != "PENDING" ==> result == Unknown
+
+// what is marshalled for a quote response: every field copied, the state as its NUT-04 string
+//@ struct tempQuote [C20] Quote Request Amount Unit State Expiry Pubkey
+//@ func (*PostMintQuoteBolt11Response).MarshalJSON
+//@   tags C20
+//@   safety C06 C20
+//@   calls json.Marshal asserts @wire [C20] typeis(v, tempQuote) && unbox(v, tempQuote).State == statestr(quoteResponse.State) && unbox(v, tempQuote).Quote == quoteResponse.Quote && unbox(v, tempQuote).Request == quoteResponse.Request && unbox(v, tempQuote).Amount == quoteResponse.Amount && unbox(v, tempQuote).Unit == quoteResponse.Unit && unbox(v, tempQuote).Expiry == quoteResponse.Expiry && unbox(v, tempQuote).Pubkey == quoteResponse.Pubkey
